@@ -134,6 +134,7 @@ func (s RNS) Events(env world.Env, mm mc.Model) []string {
 				add("Bid:%s:%s:5uatom", x, n) // a bid in another denomination than registrations are paid in
 			}
 			if s.Prop == "C09" {
+				add("Bid:%s:%s:0ujkl", x, n) // an offer of nothing (stateless validation lets it through)
 				add("Bid:%s:%s:5uatom", x, n)
 				add("BidFail:%s:%s:7ujkl", x, n) // one transaction: this bid, then a message that fails
 				if x == "A" {
@@ -172,6 +173,8 @@ func (s RNS) Events(env world.Env, mm mc.Model) []string {
 			}
 		} else {
 			add("Init:%s:-", x)
+			add("MakePrimary:%s:alpha.jkl", x) // the chain lets anybody point its primary name at any name
+			add("MakePrimary:%s:exp.jkl", x)
 			// a paid registration of a free name that somebody's Init was given
 			for _, fn := range rnsFree {
 				if _, ok := env.W().App.RnsKeeper.GetNames(env.Ctx(), strings.TrimSuffix(fn, ".jkl"), "jkl"); ok {
@@ -244,6 +247,10 @@ func subKey(n rnstypes.Names) string {
 func (s RNS) msgFor(w *world.World, p []string) sdk.Msg {
 	x := w.A(p[1]).Bech
 	switch p[0] {
+	case "MakePrimary":
+		mp := rnstypes.NewMsgMakePrimary(p[2])
+		mp.Creator = x
+		return mp
 	case "Init":
 		return rnstypes.NewMsgInit(x)
 	case "Register":
